@@ -225,7 +225,7 @@ namespace sim
           memset(&sa, 0, sizeof sa);
           sa.sa_handler = detail::crash_handler;
           sa.sa_flags = SA_RESETHAND | SA_NODEFER;
-          for (int s : {SIGSEGV, SIGABRT, SIGBUS, SIGFPE, SIGILL})
+          for (int s : {SIGSEGV, SIGABRT, SIGBUS, SIGFPE, SIGILL, SIGUSR1}) // SIGUSR1: the parent's watchdog asks where the run is stuck
             sigaction(s, &sa, nullptr);
           long mem_mb = c.num("mem_mb", 0);
           if (mem_mb > 0)
@@ -246,12 +246,18 @@ namespace sim
         {
           long el = std::chrono::duration_cast<std::chrono::milliseconds>(std::chrono::steady_clock::now() - t0).count();
           long left = limit - el;
-          if (left <= 0)
-          {
+          if (left <= 0 && !timed_out)
+          { // out of time: ask for a backtrace (says whether the system under test or the harness is stuck), kill half a second later
             timed_out = 1;
+            kill(pid, SIGUSR1);
+          }
+          if (left <= -500)
+          {
             kill(pid, SIGKILL);
             break;
           }
+          if (timed_out)
+            left = 100;
           struct pollfd p = {pfd[0], POLLIN, 0};
           int r = poll(&p, 1, static_cast<int>(left > 1000 ? 1000 : left));
           if (r > 0)
